@@ -159,6 +159,17 @@ func c02(c *Ctx) {
 		}
 	}
 
+	// ---- C02.7 value-log truncation never touches the values of transactions at or after the cut ------------------------
+	c14TruncateRules(c, "C02.7/truncation-keeps-later-values")
+	// the set of transactions whose values were flushed is the set that gets committed: the whole durability
+	// sequence of sync() runs inside the commit-state critical section
+	if f := c.mustFn("C02.3/sync-critical-section", storeT+"sync"); f != nil {
+		vlogFS := closureCallPassing(callTo(appFlush), callTo(appSync))
+		for _, st := range []step{{"vLog.Flush+Sync", vlogFS}, {"txLog.Sync", callTo(appSync + "@txLog")}, {"cLog.Append", callTo(appAppend + "@cLog")}} {
+			c.ruleHeldAt("C02.3/sync-critical-section", f, st.name, st.p, "ImmuStore.commitStateRWMutex", true, nil)
+		}
+	}
+
 	// ---- C02.3 lockset ---------------------------------------------------------------------------
 	c.ruleGuarded("C02.3/commit-state-lockset", pk, storeCommitGuard)
 	c.ruleCallerHolds("C02.3/caller-holds", pk, storeCommitGuard)
